@@ -206,11 +206,37 @@ func slotFuncs(pk *ssa.Package, global string) map[int64]*ssa.Function {
 	if g == nil {
 		return out
 	}
-	for _, m := range pk.Members {
-		fn, ok := m.(*ssa.Function)
-		if !ok {
-			continue
+	// several functions may fill the table (the portable initialiser, then an architecture-specific
+	// init that overrides some slots with assembly wrappers). The map of package members has no
+	// stable order, so the choice is made explicit: the portable Go kernel - the one every other
+	// platform runs - is preferred over a function defined in a GOARCH-specific file.
+	var names []string
+	for n, m := range pk.Members {
+		if _, ok := m.(*ssa.Function); ok {
+			names = append(names, n)
 		}
+	}
+	sort.Strings(names)
+	archFile := func(f *ssa.Function) bool {
+		if f == nil || f.Prog == nil {
+			return false
+		}
+		fname := f.Prog.Fset.Position(f.Pos()).Filename
+		for _, a := range []string{"_amd64", "_arm64", "_386", "_arm.", "_riscv64", "_ppc64", "_s390x", "_wasm", "_loong64", "_mips"} {
+			if strings.Contains(fname, a) {
+				return true
+			}
+		}
+		return false
+	}
+	set := func(i int64, f *ssa.Function) {
+		if old, ok := out[i]; ok && !archFile(old) && archFile(f) {
+			return // keep the portable kernel
+		}
+		out[i] = f
+	}
+	for _, mn := range names {
+		fn := pk.Members[mn].(*ssa.Function)
 		for _, b := range fn.Blocks {
 			for _, in := range b.Instrs {
 				st, ok := in.(*ssa.Store)
@@ -235,12 +261,12 @@ func slotFuncs(pk *ssa.Package, global string) map[int64]*ssa.Function {
 				i, _ := constantInt(idx)
 				switch v := st.Val.(type) {
 				case *ssa.Function:
-					out[i] = v
+					set(i, v)
 				case *ssa.MakeClosure:
-					out[i] = v.Fn.(*ssa.Function)
+					set(i, v.Fn.(*ssa.Function))
 				case *ssa.ChangeType:
 					if f, ok := v.X.(*ssa.Function); ok {
-						out[i] = f
+						set(i, f)
 					}
 				}
 			}
